@@ -55,7 +55,8 @@ def replay_extract(table, cfg, expanded, enc, blocked, member, lens):
 
 def replay_refuse(case):
     from cardutil import mciipm
-    f = _file(mciipm, ['2100000A036' + 'X' * 40], 'latin_1', False, trailer=(case != 'no-trailer'))
+    extra = ['TRAILER RECORD IP0075T1  00000003'] if case == 'other-trailer-only' else []
+    f = _file(mciipm, extra + ['2100000A036' + 'X' * 40] + extra, 'latin_1', False, trailer=(case not in ('no-trailer', 'other-trailer-only')))
     try:
         mciipm.IpmParamReader(f, 'IP0040T1' if case != 'no-config' else 'IP9999T1')
         raised = False
